@@ -10,6 +10,8 @@
 
 extern "C" void __sanitizer_set_death_callback(void (*cb)(void)) __attribute__((weak));
 extern "C" int __lsan_do_recoverable_leak_check(void) __attribute__((weak));
+extern "C" size_t __sanitizer_get_allocated_size(const volatile void* p) __attribute__((weak));
+extern "C" int __sanitizer_get_ownership(const volatile void* p) __attribute__((weak));
 
 namespace vh {
 
@@ -120,6 +122,7 @@ void cpuBudget(int seconds, const char* key) {
   if (seconds) signal(SIGVTALRM, budgetHandler);
   setitimer(ITIMER_VIRTUAL, &it, 0);
 }
+size_t allocSize(const void* p) { if (__sanitizer_get_allocated_size && __sanitizer_get_ownership && __sanitizer_get_ownership(p)) return __sanitizer_get_allocated_size(p); return 0; }
 void leakCheck(const char* key) { if (__lsan_do_recoverable_leak_check && __lsan_do_recoverable_leak_check()) fail(key, "LeakSanitizer reported leaked memory (see stderr) at or before case %ld", curCase); }
 
 void beginCase(long idx) { curCase = idx; hist.clear(); ctx = "case-setup"; }
